@@ -98,7 +98,7 @@ FIXED = {
     "C21_05_setitem_dask_mask_keeps_chunks": ["setitem:whole-array-dask-mask[chunked-differently]:chunks-changed",
                                               "setitem:whole-array-dask-mask&zero-size-chunk:raises"],
     "C21_06_setitem_dask_mask_one_element_value": ["setitem:whole-array-dask-mask&value=1-element-array:*"],
-    "C21_07_setitem_tuple_wrapped_dask_mask": ["setitem:tuple-wrapped-whole-array-dask-mask:IndexError@array/slicing.py:parse_assignment_indices",
+    "C21_07_setitem_tuple_wrapped_dask_mask": ["setitem:whole-array-dask-mask&value=scalar:IndexError@array/slicing.py:parse_assignment_indices",
                                                "setitem:tuple-wrapped-whole-array-dask-mask:values"],
     "C21_08_setitem_empty_negative_step_slice": ["setitem:empty-selection&value=zero-size-array:ValueError@array/slicing.py:setitem_array"],
     "C21_09_setitem_empty_selection_conforming_value": ["setitem:empty-selection&value=array-with-axis-longer-than-1:ValueError@array/slicing.py:setitem_array"],
@@ -393,16 +393,18 @@ def run_case(case, ctx):
             ctx.count("dask_values")
         ctx.sample = {"index": IX.show(enc), "chunks": case["chunks"], "value": out.vdesc}
         return
+    # x[mask] and, for n-d masks, x[(mask,)] go through where(mask, value, x)
+    uses_where = where_path(enc, shape) and (bare or len(shape) > 1)
     if (out.status == "exc" and out.symptom == "ValueError@array/slicing.py:setitem_array" and 0 in out.selshape and out.vshape):
         # direct mechanism predicate (robust against the many forms an empty selection can take): dask refuses
         # every value with an axis longer than 1 for an empty selection, and computes a negative implied size for
         # empty negative-step slices
         vt = "array-with-axis-longer-than-1" if max(out.vshape) > 1 else "zero-size-array"
         label, detail = "setitem:empty-selection&value=%s:%s" % (vt, out.symptom), {}
-    elif IX.zero_chunk_inside(chunks) and where_path(enc, shape) and bare and probe_without_zero_chunks(case, out) != out.symptom:
+    elif IX.zero_chunk_inside(chunks) and uses_where and probe_without_zero_chunks(case, out) != out.symptom:
         label = "setitem:whole-array-dask-mask&zero-size-chunk:" + ("wrong-result" if out.symptom in MISMATCH_SYMPTOMS else "raises")
         detail = {}
-    elif where_path(enc, shape) and bare:
+    elif uses_where:
         # direct mechanism predicates for the where(mask, value, x) path of Array.__setitem__
         own = any((e.get("c") and tuple(tuple(c) for c in e["c"]) != chunks) if e["k"] == "mask" else
                   (e["k"] == "blist" and tuple(e.get("c") or ()) != chunks[0]) for e in enc)
@@ -413,8 +415,6 @@ def run_case(case, ctx):
         else:
             label = "setitem:whole-array-dask-mask&value=scalar:" + out.symptom
         detail = {}
-    elif any(e["k"] == "mask" for e in enc) and not bare:
-        label, detail = "setitem:tuple-wrapped-whole-array-dask-mask:" + out.symptom, {}
     else:
         label, detail = classify(shape, chunks, case["dtype"], enc, bare, out.vmode or vmode, vkind, vseed, out.symptom)
     detail.update({"index": IX.show(enc), "shape": list(shape), "chunks": case["chunks"], "value": out.vdesc})
